@@ -67,7 +67,7 @@ claim("C02", "other",
   "symbolic inlining to a propositional formula + exhaustive truth tables + table lint", "DESIGN.md section 3 C02")
 
 claim("C08", "other",
-  "The scanner's id-normalisation plan is extracted from the SSA on every run and interpreted over the extracted tables (a finite evaluation of constants, nothing under /repo is executed): for every active id all four spellings are valid (Q1), for every listed id both spelling pairs denote interchangeable nodes (Q2: equal plus flag and equal id or same family and version group), the family lookup strips exactly the suffix the scanner rewrites (Q3). Exhaustive over all ~670 listed ids.",
+  "The scanner's id-normalisation plan is extracted from the SSA on every run and interpreted over the extracted tables (a finite evaluation of constants, nothing under /repo is executed): for every active id all four spellings are valid (Q1), for every listed id both spelling pairs denote interchangeable nodes (Q2: equal plus flag and equal id or same family and version group), the family lookup strips exactly the suffix the scanner rewrites (Q3). Exhaustive over all ~670 listed ids. T5-T8 (shared with C11): the range lookup records the table's own (family, version group, index) positions of the simplified id, every comparison of positions is under the same-family gate and in the right direction, the table getter returns a fresh literal.",
   "An unrecognised argument transform or guard in normalizeLicense makes the plan undecided (reported as a violation); guards are read off the path condition with boolean helpers inlined. X4 (verdict = exists alternative, forall term, exists allowed entry: matcher(term, entry), matchers write nothing) lifts node-level interchangeability to the verdict; S1/S3 (every allowed entry becomes a node only through parse, the node slice is only permuted/compacted) make the decision list apply to allowed entries as well.",
   "decision-list extraction from SSA + exhaustive evaluation over constant tables", "DESIGN.md section 3 C08")
 
